@@ -388,6 +388,15 @@ func (w *apiWorker) op(f []string) (out string) {
 			return "err"
 		}
 		return "ok " + entriesOut(idxEntries(ix)) + w.fileAgrees(ix)
+	case "idx.reset":
+		ix, err := w.loadIndex(nil)
+		if err != nil {
+			return "err-index"
+		}
+		if err := ix.Reset(w.root, unhx(f[1])); err != nil {
+			return "err"
+		}
+		return "ok " + entriesOut(idxEntries(ix)) + w.fileAgrees(ix)
 	case "idx.diff":
 		ix, err := w.loadIndex(entriesIn(f[1]))
 		if err != nil {
